@@ -9,7 +9,10 @@
      [type |-> "legacy" | "dyn", coef |-> 0..255, maxFee, maxPrio (BigNat; dyn only), baseFee (BigNat; Zero before
       GALACTICA), gal |-> BOOLEAN (block is at or after GALACTICA), legacyBase (param legacy-tx-base-gas-price),
       ratio (param reward-ratio, 1e18 = 100 %)]
-   Proof-of-work bonus of legacy transactions is assumed to be zero (the drivers never mine a nonce and say so).   *)
+   work / gas: proved work of a legacy tx (Zero when none) and the tx's gas limit.  The proof-of-work bonus raises the
+   OVERALL price of a legacy tx by  min(work div 1000, gas) * legacyBase div gas  (VIP: 1000 work units per gas; the
+   monthly decay of the conversion is 1 for block numbers below one month and is not modelled).  The payer is still
+   charged the plain price; the bonus only counts for the proposer's reward.                                          *)
 EXTENDS BigNat
 
 E18 == Pow10(18)
@@ -18,6 +21,12 @@ DivE18(x) == DivSmall(DivSmall(DivSmall(DivSmall(DivSmall(x, 10000), 10000), 100
 
 \* ---- price a transaction offers ----------------------------------------------------------------------------
 LegacyPrice(base, coef) == Add(base, DivSmall(MulSmall(base, coef), 255))        \* base * (1 + coef/255), rounded down
+
+WorkGas(f) == Min(DivSmall(f.work, 1000), FromInt(f.gas))
+\* what the tx is worth to the proposer per unit of gas
+OverallPrice(f) == IF f.type # "legacy" THEN f.maxFee
+                   ELSE IF Len(Norm(f.work)) = 0 THEN LegacyPrice(f.legacyBase, f.coef)
+                   ELSE Add(LegacyPrice(f.legacyBase, f.coef), Div(Mul(WorkGas(f), f.legacyBase), FromInt(f.gas)))
 
 \* what the payer is charged per unit of gas
 EffPrice(f) == IF f.type = "legacy" THEN LegacyPrice(f.legacyBase, f.coef)
@@ -32,12 +41,12 @@ Prepaid(f, gas) == MulInt(EffPrice(f), gas)
 \* ---- proposer reward ---------------------------------------------------------------------------------------
 \* before GALACTICA: ratio (30 %) of the overall fee;  after: the priority part  min(cap - baseFee, maxPriority)
 PriorityPerGas(f) ==
-  LET cap == IF f.type = "legacy" THEN LegacyPrice(f.legacyBase, f.coef) ELSE f.maxFee
-      tip == IF f.type = "legacy" THEN LegacyPrice(f.legacyBase, f.coef) ELSE f.maxPrio
+  LET cap == OverallPrice(f)
+      tip == IF f.type = "legacy" THEN OverallPrice(f) ELSE f.maxPrio
   IN Min(Sub(cap, f.baseFee), tip)                       \* defined when PriceOK(f)
 Reward(f, gasUsed) ==
   IF f.gal THEN MulInt(PriorityPerGas(f), gasUsed)
-  ELSE DivE18(Mul(MulInt(EffPrice(f), gasUsed), f.ratio))
+  ELSE DivE18(Mul(MulInt(OverallPrice(f), gasUsed), f.ratio))
 
 \* ---- base fee recurrence -----------------------------------------------------------------------------------
 BaseFeeFloor == Pow10(13)                \* 10^13 wei, also the first GALACTICA block's base fee
